@@ -20,7 +20,7 @@ BIN = VERIF / "bin" / "mdmodel"
 EVID = VERIF / "evidence"
 REPLAYS = VERIF / "replays"
 CORPUS = VERIF / "corpus"
-WORK = VERIF / "work"  # scratch, ignored by git, removed at the end of each run
+WORK = VERIF / "work" / f"p{os.getpid()}"  # per-process scratch (checks may run concurrently), ignored by git, removed at the end of each run
 
 if str(REPO) not in sys.path:
     sys.path.insert(0, str(REPO))
@@ -170,7 +170,7 @@ def run_kernel(cases: list[tuple[str, str]], tag: str, timeout: int = 300) -> tu
     pair and return (number evaluated, indices that differ from expected)."""
     if not cases:
         return 0, []
-    WORK.mkdir(exist_ok=True)
+    WORK.mkdir(parents=True, exist_ok=True)
     shard = 250
     files = []
     for k in range(0, len(cases), shard):
@@ -227,7 +227,7 @@ def run_kernel(cases: list[tuple[str, str]], tag: str, timeout: int = 300) -> tu
 
 class Lock:
     def __enter__(self):
-        WORK.mkdir(exist_ok=True)
+        WORK.mkdir(parents=True, exist_ok=True)
         self.f = open(VERIF / ".build.lock", "w")
         fcntl.flock(self.f, fcntl.LOCK_EX)
         return self
@@ -486,7 +486,25 @@ def conclude(rep: "Reporter", proofs: dict, direct: dict | None, direct_kind: st
         rep.violation("model-correspondence", what, no_input=True)
 
 
+def coqchk(pid: str) -> dict:
+    """independent re-check of the compiled cone of Props/<pid>.vo; -o prints the axioms it relies on"""
+    try:
+        p = subprocess.run(["coqchk", "-silent", "-o", "-Q", str(COQ), "MD", f"MD.Props.{pid}"],
+                           capture_output=True, text=True, timeout=2400)
+        out = p.stdout + p.stderr
+    except subprocess.TimeoutExpired:
+        return {"ok": False, "summary": "coqchk timed out"}
+    out = "\n".join(l for l in out.split("\n") if not l.startswith("WARNING"))
+    i = out.find("CONTEXT SUMMARY")
+    summary = out[i:] if i >= 0 else out[-1500:]
+    ok = p.returncode == 0 and "* Axioms: <none>" in summary and "type-in-type: <none>" in summary \
+        and "unsafe (co)fixpoints: <none>" in summary and "positivity is assumed: <none>" in summary
+    return {"ok": ok, "summary": " ".join(summary.split())}
+
+
 def proof_cov(pid: str, proofs: dict, extra_trusted: list[str]) -> dict:
+    if "coqchk" in proofs:
+        extra_trusted = extra_trusted + ["coqchk -o on this run: " + proofs["coqchk"]["summary"]]
     return {
         "obligations": len(proofs["obligations"]), "discharged": len(proofs["discharged"]),
         "checker_cmd": f"make Props/{pid}.vo (coqc 8.16.1, full .vo) via /verif/build.sh",
